@@ -209,3 +209,65 @@ fn make_removable(p: &Path) {
         }
     }
 }
+
+// ---------------------------------------------------------------------------------------------
+// One call on a materialised state of the real filesystem, seen in virtual coordinates
+// ---------------------------------------------------------------------------------------------
+pub fn unmap_str(s: &str, root: &str) -> String {
+    if s == root {
+        "/".to_string()
+    } else if is_under(s, root) {
+        s[root.len()..].to_string()
+    } else {
+        s.to_string()
+    }
+}
+pub fn unmap_res(r: Res, root: &str) -> Res {
+    let ev = |mut e: EntryView| {
+        e.path = unmap_str(&e.path, root);
+        e.alt = unmap_str(&e.alt, root);
+        if e.rel.starts_with('/') {
+            e.rel = unmap_str(&e.rel, root);
+        }
+        if e.path == "/" {
+            e.file_name = None;
+        }
+        e
+    };
+    match r {
+        Res::Path(p) => Res::Path(unmap_str(&p, root)),
+        Res::Paths(v) => Res::Paths(v.iter().map(|p| unmap_str(p, root)).collect()),
+        Res::Entry(e) => Res::Entry(ev(e)),
+        Res::Items(v) => {
+            let mut v: Vec<EntryView> = v.into_iter().map(ev).collect();
+            v.sort();
+            Res::Items(v)
+        },
+        r => r,
+    }
+}
+/// disk tree (real paths) in virtual coordinates; link modes normalised to 0o120777
+pub fn unmap_ntree(d: &NTree, root: &str) -> NTree {
+    let mut nodes = BTreeMap::new();
+    for (k, n) in &d.nodes {
+        let mut n = n.clone();
+        if let NKind::Link { target, dir } = &n.kind {
+            n.kind = NKind::Link { target: unmap_str(target, root), dir: *dir };
+            n.mode = 0o120777;
+        }
+        nodes.insert(unmap_str(k, root), n);
+    }
+    NTree { cwd: unmap_str(&d.cwd, root), nodes }
+}
+/// materialise `state` below root, run the (virtual) call through Stdfs, observe; None when the state cannot be built
+pub fn stdfs_step(root: &str, state: &NTree, op: &Op) -> Option<(Res, NTree, NTree)> {
+    wipe(root);
+    materialise_disk(state, root).ok()?;
+    let cwd = if state.cwd == "/" { root.to_string() } else { format!("{}{}", root, state.cwd) };
+    std::env::set_current_dir(&cwd).ok()?;
+    let pre = unmap_ntree(&disk_ntree(root), root);
+    let r = exec(&Stdfs::new(), &map_op(op, root));
+    let post = unmap_ntree(&disk_ntree(root), root);
+    let _ = std::env::set_current_dir(root);
+    Some((unmap_res(r, root), pre, post))
+}
